@@ -13,7 +13,7 @@ CRATE = "deleg16"
 
 RULE = ("clause sets over the unmocking inventory: traits whose unmock_with lists contain the three forms at different positions -- plain path "
         "(T::m0, T::m2 with default body, D::r0, D::u3 whose real function recurses through the mock to depth a), explicit parameter expressions "
-        "`real_u2(b, a)` (D::u2, two distinct arguments), `_` (T::m1, T::m3, D::r1), entries behind receiver-less provided functions that occupy a "
+        "`real_u2(b, a)` (D::u2, two distinct arguments), explicit expressions starting with the mock `real_u3(self, b, a)` (D::u3, inputs in another order than declared), `_` (T::m1, T::m3, D::r1), entries behind receiver-less provided functions that occupy a "
         "slot, and an entry on a `&mut self` method (D::m_mut, finding F1) -- with applies_unmocked() responses, partial fall-through and mentioned-but-"
         "unmatched calls, strict and partial; u3 is called with depths 0..7 while patterns answer some of the nested levels (the recursion must stop "
         "there and count that pattern); real functions that panic (armed). Compared per call on result text (which function ran, with which arguments, "
